@@ -32,9 +32,9 @@ func isIDType(t *ast.Type) bool {
 }
 
 func isNonNullableTypeNamed(t *ast.Type, typename string) bool {
-	return t.Name() == typename && t.NonNull
+	return t.Elem == nil && t.NamedType == typename && t.NonNull
 }
 
 func isNullableTypeNamed(t *ast.Type, typename string) bool {
-	return t.Name() == typename && !t.NonNull
+	return t.Elem == nil && t.NamedType == typename && !t.NonNull
 }
